@@ -34,8 +34,20 @@ def sparse(n, salt, period=3):
     return v
 
 
+def ordered(n, salt, rising):
+    """dense digits in strictly rising / falling order from the least significant digit"""
+    r = random.Random(9000011 * n + salt)
+    ds = sorted((r.getrandbits(62) | (1 << 62)) + i for i in range(n))
+    if not rising:
+        ds.reverse()
+    return sum(d << (64 * i) for i, d in enumerate(ds))
+
+
 def operand(n, salt, pat):
+    if pat in 'rf':
+        return ordered(n, salt, pat == 'r')
     return dense(n, salt) if pat == 'd' else sparse(n, salt)
+
 
 
 def cmd_work(n, m, tag, pats='dd', op='work'):
@@ -193,6 +205,12 @@ def stages(tier, seed):
     # the absolute clause is scaled to the n*m count of that shape
     for num, den, tg in ((5, 4, 'near125'), (29, 20, 'near145'), (21, 20, 'near105')):
         rel += [cmd_work(n, n * num // den, 'rel-' + tg) for n in BAL[:6]]
+    # operands whose halves are ordered oppositely at every recursion level (x rising, y falling ...), which steers Karatsuba
+    # into each sign arm of its middle term.  Sizes start at 256 like the main series: the doubling clause is only applied
+    # well beyond the crossover points, so that a retuned threshold (a legitimate change) cannot trip it
+    ordsz = [256, 512, 1024, 2048]
+    for pa in ('rf', 'fr', 'rr', 'ff'):
+        rel += [cmd_work(n, n, 'rel-ord' + pa, pa) for n in ordsz]
     fsz = [1024, 2048, 4096]
     rel += [cmd_workf(f, n, 'rel') for f in FORMS + SQFORMS for n in fsz]
     # the configurations without std (the dispatch must not depend on the feature set)
@@ -200,6 +218,8 @@ def stages(tier, seed):
     extra = [dict(label='analyse-rel-form-' + f, custom=(lambda f=f: analyse('rel-' + f, fsz, []))) for f in FORMS + SQFORMS]
     for num, den, tg in ((5, 4, 'near125'), (29, 20, 'near145'), (21, 20, 'near105')):
         extra.append(dict(label='analyse-rel-form-' + tg, custom=(lambda num=num, den=den, tg=tg: analyse_near('rel-' + tg, BAL[:6], num, den))))
+    for pa in ('rf', 'fr', 'rr', 'ff'):
+        extra.append(dict(label='analyse-rel-form-ord' + pa, custom=(lambda pa=pa: analyse('rel-ord' + pa, [256, 512, 1024, 2048], []))))
     extra += [dict(label='nostd-rel', variant='nostd-rel', groups=[nostd]),
               dict(label='analyse-nostd', custom=lambda: analyse('nostd', dsz, dun)),
               dict(label='analyse-nostd-squares', custom=lambda: analyse('nostd-sq', dsz, []))]
